@@ -342,6 +342,7 @@ def lazy_eager(ctx):
 
 
 @rule("C01.cayley", props=["C01", "C20"], min_instances=2, mutants=[
+    ("large algebras take their Cayley signs from the binary routine", ("algebra", "            if sign := self.signs[I, J]:\n                sign = '-' if sign == -1 else ''", "            if sign := (self._swap_blades_bin(I, J)[1] if self.d > 6 and not self.basis else self.signs[I, J]):\n                sign = '-' if sign == -1 else ''")),
     ("cayley looks the sign up transposed", ("algebra", "            if sign := self.signs[I, J]:\n                sign = '-' if sign == -1 else ''", "            if sign := self.signs[J, I]:\n                sign = '-' if sign == -1 else ''")),
     ("cayley drops the minus sign", ("algebra", "                sign = '-' if sign == -1 else ''", "                sign = '-' if sign == 1 else ''")),
     ("cayley prints zero products", ("algebra", "                cayley[eI, eJ] = f'0'", "                cayley[eI, eJ] = f'{self.bin2canon[I ^ J]}'")),
